@@ -32,7 +32,8 @@ def handle_check(prop, tier, seed):
     # 1. exhaustive TLC check of the design model against the laws + program generation (G)
     ops, depth, handles, allocs, maxlen = design_cfg(prop, tier)
     mc = D.run_model("%s_mc" % prop, depth, handles, allocs, maxlen, ops, sample_k=300 if tier == "quick" else 1500, seed=seed,
-                     timeout=900 if tier == "quick" else 6000)
+                     timeout=900 if tier == "quick" else 6000,
+                     parities=(0,) if (prop == "C04" and tier == "quick") else (0, 1))
     if mc["actions_never_taken"]:
         raise C.ToolError("vacuity: design actions never taken: %s" % mc["actions_never_taken"])
     pf = os.path.join(C.workdir("design"), "%s_programs.ndjson" % prop)
@@ -288,7 +289,7 @@ def hostile_check(prop, tier, seed):
     q = tier == "quick"
     scripts, st = X.model("C17_model", 5 if q else 8, 4 if q else 6, seed)
     cs = X.cases(scripts, seed, 2500 if q else 60000)
-    results = [X.run("C17_release", cs, "release"), X.run("C17_debug", cs[:900] if q else cs, "debug"), X.run("C17_asan", cs, "asan")]
+    results = [X.run("C17_release", cs, "release"), X.run("C17_debug", cs, "debug"), X.run("C17_asan", cs, "asan")]
     rc, nnew, shown = 0, 0, set()
     for r in results:
         for v in r["violations"]:
